@@ -508,6 +508,11 @@ func (g *Gate) execute(id int, p *pendingRPC, f *Fault) (rpcResult, bool) {
 	if executed {
 		w.emitLocked("rpc " + line)
 	} else {
+		if f != nil && f.Kind == DropAfter {
+			// the store refused the request (region error) and that answer is lost too: for the client this is a request
+			// that was not executed and whose fate it does not learn
+			line = fmt.Sprintf("norpc %d %s dropped %s", id, c.name, p.cmd)
+		}
 		w.emitLocked(line)
 		if f != nil && f.Kind == CrashAfter {
 			// not executed (region error/rpc error): the client still dies here
